@@ -10,11 +10,23 @@ ENGINES = [
      "kind_free_text": "the current source of _type_casting/_core/serde is recompiled into shadow modules whose numpy/mmap/open/os globals are shims over z3 bit-vector cells and z3 arrays; the real tensor code then runs on fully symbolic payloads, offsets and file contents"},
     {"name": "hist (on zsym)", "path": "engine/hist.py, engine/irlib.py", "serves_properties": ["C01", "C06", "C11", "C12", "C13", "C19", "C20"],
      "kind_free_text": "bounded edit histories over the real IR classes with symbolic operand selectors and payload ints; z3 decides path feasibility, every feasible path is explored and its witness re-executed natively (guard against proxy intolerance)"},
+    {"name": "vthreads", "path": "engine/vthreads.py, engine/fsmodel.py", "serves_properties": ["C08", "C09"],
+     "kind_free_text": "the real external_data module is recompiled with threading/concurrent.futures replaced by greenlet-based virtual threads under a deterministic scheduler whose choices are symbolic, and os/shutil/tempfile/open/mmap replaced by an in-memory file system whose every effect is a numbered fault/crash point"},
     {"name": "zsym", "path": "engine/zsym.py", "serves_properties": ["C04", "C07", "C10", "C15"],
      "kind_free_text": "execution of the real functions on z3 Int/Real/String proxies with re-execution DFS over branch decisions; property = SMT query per path"},
 ]
 NOT_APPLICABLE = {}
 CHECKS = {
+    "C09": dict(
+        engine="vthreads + hist (on zsym)", level="model_checking", design_ref="DESIGN.md section 4 / C09",
+        technique="SMT (z3): inductive invariant of the real _ByteBudget on arbitrary symbolic states; bounded model checking of the real writers on virtual threads (all interleavings at synchronisation points up to a preemption bound; sizes, capacity and failing tensor symbolic)",
+        text=("(A) unbounded: the real _ByteBudget.__init__/acquire/release run on z3 integers from an arbitrary state satisfying the invariant (0 <= in_flight <= capacity, oversized flag <=> one oversized token held); z3 proves every outcome "
+              "re-establishes it, accounts exactly, blocks only when the documented guard is false and wakes all sleepers; the memory bound follows from the invariant (SMT). (B) bounded: _ExternalDataWriter (parallel) and the shard-driver layer run "
+              "unchanged on virtual threads: every interleaving at synchronisation points within the preemption bound, with tensor sizes and capacity as unconstrained symbolic integers (guards decided by z3) and a symbolic failing tensor, is "
+              "checked for deadlock/lost wake-up, callback once per task and never concurrent, shared tensor evaluated by one thread at a time, materialised bytes <= capacity + largest tensor, each task written once at its offset through its "
+              "own thread's handle, preallocation to the serial size, quiescence and full budget release when a failure reaches the caller."),
+        note="Trusted: z3; the virtual-thread stand-ins implement the documented contracts of Lock/Condition/ThreadPoolExecutor/as_completed/threading.local (listed in the evidence); context switches only at synchronisation points; more preemptions/tasks/workers than the bound are outside the claim.",
+    ),
     "C13": dict(
         engine="hist (on zsym)", level="other", design_ref="DESIGN.md section 4 / C13",
         technique="symbolic execution (zsym/z3) of clone-then-edit histories over the real Cloner / clone() / functionalize; proto equality, identity disjointness, differential snapshot of the untouched copy",
